@@ -28,14 +28,18 @@ def emit(pid, header, imports, items, extra=""):
     out = [header, imports, "", "Close Scope Qc_scope. Close Scope Q_scope. Open Scope nat_scope.", ""]
     for name, fname, lemma, comment in items:
         out.append("(* %s *)" % comment)
+        if fname == "ContainerP":
+            out.append("Open Scope N_scope.")
         out.append("Theorem %s_%s : %s." % (pid, name, statement(fname, lemma)))
         out.append("Proof. exact (@%s). Qed." % lemma)
         out.append("Print Assumptions %s_%s." % (pid, name))
+        if fname == "ContainerP":
+            out.append("Close Scope N_scope.")
         out.append("")
     out.append(extra)
     open(os.path.join(ROOT, "coq/theories/Properties/%s.v" % pid), "w").write("\n".join(out))
 
-IMP = "From Sfs Require Import Index ArrayM Scalar Spectrum Project Create SampleParse IndexP ArrayP BinomP ProjectP CreateP CreateSpecP SampleParseP.\nFrom Coq Require Import Permutation."
+IMP = "From Sfs Require Import Index ArrayM Scalar Spectrum Project Create SampleParse Npy Text Container IndexP ArrayP BinomP ProjectP CreateP CreateSpecP SampleParseP ContainerP.\nFrom Coq Require Import Permutation.\nClose Scope string_scope."
 
 emit("C08", "(* Property C08 - genotype -> allele-count classification is total and exact. Statements + exact + Print Assumptions. *)", IMP, [
  ("called_iff", "CreateP", "classify_called_iff", "a diploid genotype contributes a+b exactly when both alleles are 0 or 1 (phasing is not even an input)"),
@@ -46,6 +50,14 @@ emit("C08", "(* Property C08 - genotype -> allele-count classification is total 
  ("ploidy_error_iff_selected", "CreateP", "site_steps_none_iff", "a record fails exactly when a selected column holds a non-diploid genotype"),
  ("ploidy_aborts_run", "CreateP", "ploidy_aborts_run", "a selected non-diploid genotype fails the whole run, naming contig and position; no spectrum"),
  ("unselected_irrelevant", "CreateP", "read_site_unselected_irrelevant", "genotypes (of any ploidy) in unselected columns never matter"),
+ ("vcf_text_path", "ContainerP", "vcf_field_render", "VCF text path: the GT text of a sample decodes to exactly its alleles (noodles' GT parser written out), whatever the separators"),
+ ("vcf_missing_field", "ContainerP", "vcf_field_render_missing", "... and the missing value '.' is 'no genotype'"),
+ ("bcf_binary_path", "ContainerP", "bcf_field_hts", "BCF binary path: the int8 vector htslib writes for a genotype (any padding width) decodes to exactly its alleles"),
+ ("both_paths_classify_alike", "ContainerP", "gt_container_independent", "both paths give the classification of the alleles: the VCF text path and the BCF binary path agree on every genotype"),
+ ("phasing_irrelevant", "ContainerP", "gt_phasing_irrelevant", "regardless of phasing, in both paths"),
+ ("bcf_missing_field_was_ploidy_error", "ContainerP", "gt_container_v0_refuted", "refutation kept on record (F16): before the repair the missing field was a ploidy error in BCF and missing in VCF"),
+ ("bcf_empty_vector_is_error", "ContainerP", "bcf_field_empty", "a BCF vector with no allele before the end-of-vector value is a record error"),
+ ("bcf_negative_is_error", "ContainerP", "bcf_field_negative", "... and so is a negative int8 value"),
 ], extra="""(* totality and non-vacuity: every decoded GT falls in exactly one class; 0/2 is multiallelic *)
 Example C08_examples :
   classify (Some [Some 0; Some 2]) = GMultiallelic /\\ classify (Some [Some 1; Some 1]) = GCalled 2 /\\
@@ -236,7 +248,7 @@ emit_n("C16", "(* Property C16 - damaged spectrum files are rejected, never read
 def emit_s(pid, header, items, imports, extra=""):
     out = [header, imports, ""]
     for name, fname, lemma, comment in items:
-        nscope = fname in ("DetectP", "StreamP", "NpyP", "TextP")
+        nscope = fname in ("DetectP", "StreamP", "NpyP", "TextP", "ContainerP")
         out.append("Close Scope string_scope. Open Scope N_scope." if nscope else "Close Scope N_scope. Open Scope nat_scope.")
         out.append("(* %s *)" % comment)
         out.append("Theorem %s_%s : %s." % (pid, name, statement(fname, lemma)))
@@ -271,4 +283,7 @@ emit_s("C12", "(* Property C12 - output depends only on call data, not container
  ("shape_from_list_only", "CreateSpecP", "map_shape_spec", "the output shape is a function of the sample list (labels in first-appearance order, counts): nothing else, in particular no hash order"),
  ("ids_from_list_only", "CreateSpecP", "build_map_ids", "population ids likewise"),
  ("column_order_free", "CreateSpecP", "read_site_column_perm", "the order of sample columns in the container does not matter"),
-], "From Sfs Require Import Index ArrayM Scalar Spectrum Project Create Npy Text Stream IndexP ArrayP NpyP StreamP DetectP CreateP CreateSpecP.\nFrom Coq Require Import Permutation.")
+ ("genotype_container_free", "ContainerP", "gt_container_independent", "a genotype is classified alike whether it arrives as VCF text or as the int8 vector htslib writes into a BCF record"),
+ ("record_container_free", "ContainerP", "record_container_independent", "... for a whole record, every sample padded to the widest genotype of the record (mixed ploidy, missing fields)"),
+ ("bcf_text_is_vcf_text", "ContainerP", "bcf_gt_string_hts", "the GT text noodles-bcf rebuilds from an htslib vector is the VCF spelling of the genotype"),
+], "From Sfs Require Import Index ArrayM Scalar Spectrum Project Create Npy Text Container Stream IndexP ArrayP NpyP StreamP DetectP CreateP CreateSpecP ContainerP.\nFrom Coq Require Import Permutation.")
